@@ -9,6 +9,7 @@ package checks
 import (
 	"fmt"
 	"math"
+	"strings"
 	"testing"
 
 	"pgregory.net/rapid"
@@ -135,6 +136,32 @@ func TestC03_Table(t *testing.T) {
 		// unary minus and conditional (one operand)
 		if !emit(ast.N(ast.Neg, l.lit()), emptyDoc, true, "neg|"+l.name+"|lit") {
 			return
+		}
+		// stacked unary minus, written without parentheses: every minus is applied
+		// (and type-checks its operand) at run time
+		{
+			lt := ast.Print(ast.Normalize(l.lit()))
+			two := ast.N(ast.Neg, ast.N(ast.Neg, l.lit()))
+			three := ast.N(ast.Neg, ast.N(ast.Neg, ast.N(ast.Neg, l.lit())))
+			for _, sp := range []struct {
+				prog *ast.Node
+				text string
+			}{{two, "--" + lt}, {two, "- -" + lt}, {two, "-(-" + lt + ")"}, {three, "---" + lt}, {three, "- - -" + lt}, {two, "1 + --" + lt}, {two, "[--" + lt + "][0]"}} {
+				prog := sp.prog
+				switch {
+				case strings.HasPrefix(sp.text, "1 +"):
+					prog = ast.BinN("+", ast.NumN(1), prog)
+				case strings.HasPrefix(sp.text, "["):
+					prog = ast.PredN(ast.ArrN(prog), ast.NumN(0))
+				}
+				c := mkDiff(prog, emptyDoc, true)
+				c.Text = sp.text
+				m, skip := c03Check(rec, c, "negneg|"+l.name+"|"+sp.text)
+				cells++
+				if !skip && m != "" && rec.FailNow(c, m) >= 8 {
+					return
+				}
+			}
 		}
 		if !emit(ast.N(ast.Cond, l.lit(), ast.StrN("T"), ast.CallN("error", ast.StrN("else evaluated"))), emptyDoc, true, "cond-then|"+l.name) {
 			return
